@@ -238,6 +238,43 @@ def replay_case(ctx, mod, data):
     return []
 
 
+def summary_membership(d, body, version, case):
+    """Which providers are summarised, for an UNLIMITED request [A
+    provider_summaries]: below 1.29 the providers included in the allocation
+    requests; from 1.29 additionally all providers of the trees those belong
+    to.  (Documented surface per microversion: judged by C14.)"""
+    w = acref.World(d)
+    sums = body['provider_summaries']
+    named = set()
+    for ar in body['allocation_requests']:
+        al = ar['allocations']
+        if isinstance(al, list):
+            named |= {e['resource_provider']['uuid'] for e in al}
+        else:
+            named |= set(al)
+    # which providers are summarised [A provider_summaries]: below 1.29 the
+    # providers included in the allocation requests; from 1.29 additionally
+    # all providers of the trees those belong to
+    if version < 29:
+        extra = sorted(set(sums) - named)
+        if extra:
+            raise Violation({'clause': 'summary-of-provider-not-in-any-'
+                                       'allocation-request'},
+                            {'case': case, 'providers': extra})
+    else:
+        roots = {w.root[u] for u in named}
+        allowed = {u for u in d.providers if w.root[u] in roots}
+        extra = sorted(set(sums) - allowed)
+        missing = sorted(allowed - set(sums))
+        if extra:
+            raise Violation({'clause': 'summary-of-provider-outside-the-'
+                                       'trees-used'},
+                            {'case': case, 'providers': extra})
+        if missing:
+            raise Violation({'clause': 'tree-member-without-summary'},
+                            {'case': case, 'providers': missing})
+
+
 def summaries_check(d, body, version, requested_classes, case):
     """C02(3): every provider named in an allocation request has a
     provider_summaries entry whose capacity/used (and traits, parent/root
